@@ -24,10 +24,22 @@ type Meta struct {
 	Changeset int64  `json:"cs,omitempty"`
 	User      string `json:"user,omitempty"`
 	UID       int64  `json:"uid,omitempty"`
-	TS        int64  `json:"ts,omitempty"` // unix seconds, 0 = zero time
+	TS        int64  `json:"ts,omitempty"` // unix seconds; 0 (with NS == 0 and !TSSet) = zero time
+	// Boundary audit: the instant is TS seconds + NS nanoseconds; TSSet makes
+	// "1970-01-01T00:00:00Z" (TS == 0, NS == 0) a real timestamp; ZoneSec != 0
+	// stores the instant in a fixed zone that many seconds east of UTC.
+	NS      int64 `json:"ns,omitempty"`
+	TSSet   bool  `json:"tsset,omitempty"`
+	ZoneSec int   `json:"zone,omitempty"`
 }
 
 func (m Meta) zero() bool { return m == Meta{} }
+
+// hasTS tells whether the element carries a timestamp (a non-zero time.Time).
+func (m Meta) hasTS() bool { return m.TS != 0 || m.NS != 0 || m.TSSet }
+
+// instant is the timestamp of the description (only meaningful when hasTS).
+func (m Meta) instant() time.Time { return time.Unix(m.TS, m.NS) }
 
 // DNode is a node of the input; Lat == Lon == 0 means "not located".
 type DNode struct {
@@ -76,6 +88,9 @@ type Data struct {
 	Nodes  []DNode `json:"nodes"`
 	Ways   []DWay  `json:"ways"`
 	Rels   []DRel  `json:"rels"`
+	// Extras adds what an osm.OSM can hold besides elements (attributes,
+	// bounds, a changeset, a note, a user); none of it is an element.
+	Extras bool `json:"extras,omitempty"`
 }
 
 // contentHash identifies the data set independent of its name.
@@ -102,23 +117,44 @@ func osmTags(ts []Tag) osm.Tags {
 	return out
 }
 
-func osmTime(ts int64) time.Time {
-	if ts == 0 {
+func osmTime(m Meta) time.Time {
+	if !m.hasTS() {
 		return time.Time{}
 	}
-	return time.Unix(ts, 0).UTC()
+	if m.ZoneSec != 0 {
+		return time.Unix(m.TS, m.NS).In(time.FixedZone("", m.ZoneSec))
+	}
+	return time.Unix(m.TS, m.NS).UTC()
+}
+
+// metaOf reads the metadata of an element back into the description.
+func metaOf(version int, cs osm.ChangesetID, user string, uid osm.UserID, t time.Time) Meta {
+	m := Meta{Version: version, Changeset: int64(cs), User: user, UID: int64(uid)}
+	if !t.IsZero() {
+		m.TS, m.NS = t.Unix(), int64(t.Nanosecond())
+		m.TSSet = m.TS == 0 && m.NS == 0
+		_, m.ZoneSec = t.Zone()
+	}
+	return m
 }
 
 // build creates a fresh osm.OSM from the description; nothing is shared
 // between two results of build.
 func build(d *Data) *osm.OSM {
 	o := &osm.OSM{}
+	if d.Extras {
+		o.Version, o.Generator, o.Copyright, o.Attribution, o.License = "0.6", "gen", "c", "a", "l"
+		o.Bounds = &osm.Bounds{MinLat: 1, MaxLat: 2, MinLon: 1, MaxLon: 2}
+		o.Changesets = osm.Changesets{{ID: 1, User: "user1", UserID: 91, Tags: osm.Tags{{Key: "comment", Value: "c"}}, MinLat: 1, MaxLat: 2, MinLon: 1, MaxLon: 2}}
+		o.Notes = osm.Notes{{ID: 1, Lat: 1.5, Lon: 1.5, Status: "open"}}
+		o.Users = osm.Users{{ID: 91, Name: "user1"}}
+	}
 	for _, n := range d.Nodes {
 		o.Nodes = append(o.Nodes, &osm.Node{
 			ID: osm.NodeID(n.ID), Lat: n.Lat, Lon: n.Lon, Visible: true,
 			Tags:    osmTags(n.Tags),
 			Version: n.Meta.Version, ChangesetID: osm.ChangesetID(n.Meta.Changeset),
-			User: n.Meta.User, UserID: osm.UserID(n.Meta.UID), Timestamp: osmTime(n.Meta.TS),
+			User: n.Meta.User, UserID: osm.UserID(n.Meta.UID), Timestamp: osmTime(n.Meta),
 		})
 	}
 	for _, w := range d.Ways {
@@ -126,7 +162,7 @@ func build(d *Data) *osm.OSM {
 			ID: osm.WayID(w.ID), Visible: true,
 			Tags:    osmTags(w.Tags),
 			Version: w.Meta.Version, ChangesetID: osm.ChangesetID(w.Meta.Changeset),
-			User: w.Meta.User, UserID: osm.UserID(w.Meta.UID), Timestamp: osmTime(w.Meta.TS),
+			User: w.Meta.User, UserID: osm.UserID(w.Meta.UID), Timestamp: osmTime(w.Meta),
 		}
 		ow.Nodes = make(osm.WayNodes, len(w.Nodes))
 		for i, wn := range w.Nodes {
@@ -139,7 +175,7 @@ func build(d *Data) *osm.OSM {
 			ID: osm.RelationID(r.ID), Visible: true,
 			Tags:    osmTags(r.Tags),
 			Version: r.Meta.Version, ChangesetID: osm.ChangesetID(r.Meta.Changeset),
-			User: r.Meta.User, UserID: osm.UserID(r.Meta.UID), Timestamp: osmTime(r.Meta.TS),
+			User: r.Meta.User, UserID: osm.UserID(r.Meta.UID), Timestamp: osmTime(r.Meta),
 		}
 		or.Members = make(osm.Members, len(r.Members))
 		for i, m := range r.Members {
@@ -156,12 +192,7 @@ func build(d *Data) *osm.OSM {
 // unchanged.
 func extract(o *osm.OSM, name, family string) (d Data, err error) {
 	d.Name, d.Family = name, family
-	ts := func(t time.Time) int64 {
-		if t.IsZero() {
-			return 0
-		}
-		return t.Unix()
-	}
+	d.Extras = o.Bounds != nil
 	tags := func(ts osm.Tags) []Tag {
 		if ts == nil {
 			return nil
@@ -177,14 +208,14 @@ func extract(o *osm.OSM, name, family string) (d Data, err error) {
 			return d, fmt.Errorf("nil node")
 		}
 		d.Nodes = append(d.Nodes, DNode{ID: int64(n.ID), Lat: n.Lat, Lon: n.Lon, Tags: tags(n.Tags),
-			Meta: Meta{n.Version, int64(n.ChangesetID), n.User, int64(n.UserID), ts(n.Timestamp)}})
+			Meta: metaOf(n.Version, n.ChangesetID, n.User, n.UserID, n.Timestamp)})
 	}
 	for _, w := range o.Ways {
 		if w == nil {
 			return d, fmt.Errorf("nil way")
 		}
 		dw := DWay{ID: int64(w.ID), Tags: tags(w.Tags),
-			Meta: Meta{w.Version, int64(w.ChangesetID), w.User, int64(w.UserID), ts(w.Timestamp)}}
+			Meta: metaOf(w.Version, w.ChangesetID, w.User, w.UserID, w.Timestamp)}
 		for _, wn := range w.Nodes {
 			dw.Nodes = append(dw.Nodes, DWayNode{ID: int64(wn.ID), Lat: wn.Lat, Lon: wn.Lon})
 		}
@@ -195,7 +226,7 @@ func extract(o *osm.OSM, name, family string) (d Data, err error) {
 			return d, fmt.Errorf("nil relation")
 		}
 		dr := DRel{ID: int64(r.ID), Tags: tags(r.Tags),
-			Meta: Meta{r.Version, int64(r.ChangesetID), r.User, int64(r.UserID), ts(r.Timestamp)}}
+			Meta: metaOf(r.Version, r.ChangesetID, r.User, r.UserID, r.Timestamp)}
 		for _, m := range r.Members {
 			dr.Members = append(dr.Members, DMember{Type: string(m.Type), Ref: m.Ref, Role: m.Role, Orientation: int(m.Orientation)})
 		}
